@@ -71,11 +71,11 @@ def suites(rng, tier):
     n = {"quick": 2500, "thorough": 60000, "search": 30000}[tier]
     lines = [gen_case2(rng) for _ in range(n)]
     m = {"quick": 500, "thorough": 10000, "search": 8000}[tier]
-    hl = [H.gen_case(rng) for _ in range(m)]
+    hl = [H.gen_case(rng) for _ in range(m)] + [H.gen_close_balance_case(rng) for _ in range(max(40, m // 10))]
     return [{"suite": "bankops", "name": "bankops-accrual", "lines": lines, "distribution": {"cases": n}},
-            {"suite": "hops", "name": "hops-handlers", "lines": hl, "distribution": {"cases": m}},
+            {"suite": "hops", "name": "hops-handlers", "lines": hl, "distribution": {"cases": len(hl), "close_balance_after_time": max(40, m // 10)}},
             {"suite": "hopsref", "name": "hops-freshness-reference", "lines": hl, "impl_only": True,
-             "distribution": {"cases": m, "note": "same cases; adds the real accrue_interest applied in isolation as reference"}}]
+             "distribution": {"cases": len(hl), "note": "same cases; adds the real accrue_interest applied in isolation as reference"}}]
 
 
 def gen_case2(rng):
